@@ -482,6 +482,8 @@ def masked_flatten(ex, st, mv, node):
 # ---- python builtins -------------------------------------------------------------------------------
 def _len(ex, st, args, kw, node):
     x = args[0]
+    if isinstance(x, MaskedV):
+        return mask_count(ex.arr(st, x.mask))        # number of selected entries / rows
     if isinstance(x, ARef):
         return ex.arr(st, x).shape[0]
     if isinstance(x, LRef):
